@@ -138,6 +138,11 @@ pub fn big_case(n_items: usize, ips: u32, n_chroms: usize) -> Case {
     }
 }
 
+pub fn with_block_size(mut c: Case, block_size: u32) -> Case {
+    c.opts.block_size = block_size;
+    c
+}
+
 impl Prop for C01 {
     type Case = Case;
     const ID: &'static str = "C01";
@@ -177,6 +182,12 @@ impl Prop for C01 {
             big_case(65_535, 65535, 1),
             big_case(65_536, 65535, 1),
             big_case(70_000, 65535, 1),
+            // scale thresholds of the index: one leaf node with thousands of entries (fan-out 4096),
+            // a non-leaf entry spanning hundreds of chromosomes (one section per chromosome)
+            with_block_size(big_case(3000, 1, 1), 4096),
+            with_block_size(big_case(70_000, 8, 1), 65535),
+            big_case(300, 1024, 300),
+            big_case(1000, 1024, 1000),
         ];
         if tier == Tier::Thorough {
             v.push(big_case(140_000, 65535, 2));
